@@ -89,7 +89,7 @@ theorem injectId_ids (sid : Str) (ids : List Str) (r a : Str) (s : Session) (hid
     · exact wp_pure _ (fun h => h2 h)
 
 section
-variable (rec : Rec) (env : Env) (hs : ∀ x, Pres Frame (rec.spans x)) (hd : ∀ x, Pres IdsNodup (rec.document x))
+variable (rec : Rec) (env : Env) (hs : ∀ x, Pres Frame (rec.spans x)) (hd : ∀ d x, Pres IdsNodup (rec.document d x))
 include hs
 
 @[pres] theorem battrParse_ids (attrs : Str) : Pres IdsNodup (battrParse rec env attrs) := by
@@ -203,7 +203,7 @@ theorem documentLoop_ids : ∀ fuel r w, Pres IdsNodup (documentLoop rec env fue
   | zero => intro r w; ids_start; unfold documentLoop; wp_go
   | succ n ih => intro r w; ids_start; unfold documentLoop; wp_go
 
-theorem documentRender_ids (fuel : Nat) (src : Str) : Pres IdsNodup (documentRender rec env fuel src) := by
+theorem documentRender_ids (fuel : Nat) (src : Str) (d : Nat) : Pres IdsNodup (documentRender rec env fuel src d) := by
   have h := documentLoop_ids rec env hs hd
   ids_start; unfold documentRender; wp_go
 
@@ -212,21 +212,21 @@ end
 /-- Tying the knot: at every fuel level nested span renders satisfy the frame condition and nested document
     renders preserve `Step`. -/
 theorem mkRec_ids (env : Env) : ∀ n,
-    (∀ x, Pres Frame ((mkRec env n).spans x)) ∧ (∀ x, Pres IdsNodup ((mkRec env n).document x)) := by
+    (∀ x, Pres Frame ((mkRec env n).spans x)) ∧ (∀ d x, Pres IdsNodup ((mkRec env n).document d x)) := by
   intro n
   induction n with
   | zero =>
     refine ⟨?_, ?_⟩
     · intro x; frame_start; exact wp_raise _
-    · intro x; ids_start; exact wp_raise _
+    · intro d x; ids_start; exact wp_raise _
   | succ n ih =>
     obtain ⟨ihs, ihd⟩ := ih
     refine ⟨?_, ?_⟩
     · intro x
       show Pres Frame (spansRender (mkRec env n) env x)
       exact spansRender_frame _ env ihs x
-    · intro x
-      show Pres IdsNodup (documentRender (mkRec env n) env (n+1) x)
-      exact documentRender_ids _ env ihs ihd _ x
+    · intro d x
+      show Pres IdsNodup (documentRender (mkRec env n) env (n+1) x d)
+      exact documentRender_ids _ env ihs ihd _ x d
 
 end Rimu
